@@ -82,7 +82,10 @@ class Unit:
         parts = []
         table = []
         for ch in self.chunks:
-            if ch.kind == 'item':
+            if ch.kind == 'item' and ch.item in getattr(self, 'excluded_items', ()):
+                # set aside after a tool error confined to this item (vx/run.py): the other items of the unit are still checked
+                t = '// [item %s set aside: it does not pass the Rust / Verus front end as extracted; see the run\'s undecided notes]\n' % ch.item.name
+            elif ch.kind == 'item':
                 t = ch.item.with_canaries() if variant == 'canary' else ch.item.text
                 t = t.rstrip('\n') + '\n'
             else:
